@@ -237,7 +237,8 @@ func (r *Range) IsNext(next *Range, size uint64) bool {
 
 func (r *Range) Equals(other *Range) bool {
 	return r.startBlock == other.startBlock &&
-		r.endBlock == other.endBlock &&
+		((r.endBlock == nil && other.endBlock == nil) ||
+			(r.endBlock != nil && other.endBlock != nil && *r.endBlock == *other.endBlock)) &&
 		r.exclusiveStartBlock == other.exclusiveStartBlock &&
 		r.exclusiveEndBlock == other.exclusiveEndBlock
 }
